@@ -119,9 +119,11 @@ PROPS = {
                       'bodies: the counting loops are related to the number of keys two sorted streams share / hold together (merge recursion), '
                       'which equals the receiver\'s key count exactly when the subset / superset relation holds; premise: the stored key count is '
                       'the number of keys (C09, proved of every built file in unit builder). OpBuilder::push (Box<dyn Streamer>) and '
-                      '`&Fst` as a stream source are assumed; the Set wrappers (through StreamZeroOutput) are not under contract.',
+                      '`&Fst` / `&Map` / `&Set` as stream sources are assumed; the map / set front ends (OpBuilder new/add/push/union/intersection/difference/'
+                      'symmetric_difference, the four next wrappers each, Map::op, Set::op, Set::is_disjoint/is_subset/is_superset) are verified on '
+                      'their real bodies over the raw contracts.',
         'explanation': '',
-        'assumptions': ['OpBuilder::push boxes a `dyn Streamer`: assumed to append a stream yielding the argument\'s items', 'Set::is_disjoint/is_subset/is_superset wrappers not under contract'],
+        'assumptions': ['OpBuilder::push boxes a `dyn Streamer`: assumed to append a stream yielding the argument\'s items'],
     },
     'C12': {
         'units': ['registry', 'builder', 'compose'],
